@@ -78,6 +78,8 @@ def atom_expr(a, layout):
         return ["op2", "EQ", ["op2", "MOD", w(a[1]), ["c", a[2]]], ["c", a[3]]]
     if k == "modw":
         return ["op2", "EQ", ["op2", "MOD", w(a[1]), w(a[2])], ["c", a[3]]]
+    if k in ("sdivw", "smodw", "expw"):
+        return ["op2", "EQ", ["op2", {"sdivw": "SDIV", "smodw": "SMOD", "expw": "EXP"}[k], w(a[1]), w(a[2])], ["c", a[3]]]
     if k == "mix":
         return ["op2", "EQ", ["op2", "XOR", ["op2", "MUL", w(a[1]), ["c", a[2]]], ["op2", "SHR", ["c", 7], w(a[1])]], ["c", a[3]]]
     if k == "st":
@@ -109,6 +111,9 @@ def atom_holds(a, words, lens, data0, store):
         return words[a[1]] % a[2] == a[3]
     if k == "modw":
         return (0 if words[a[2]] == 0 else words[a[1]] % words[a[2]]) == a[3]
+    if k in ("sdivw", "smodw", "expw"):
+        from vfw.evmref import alu
+        return alu({"sdivw": "SDIV", "smodw": "SMOD", "expw": "EXP"}[k], words[a[1]], words[a[2]]) == a[3]
     if k == "mix":
         return (((words[a[1]] * a[2]) & M256) ^ (words[a[1]] >> 7)) == a[3]
     if k == "st":
@@ -141,6 +146,12 @@ def atom_z3(a, W, L, D, store):
         return z3.URem(W[a[1]], B(a[2])) == B(a[3])
     if k == "modw":
         return z3.If(W[a[2]] == 0, B(0), z3.URem(W[a[1]], W[a[2]])) == B(a[3])
+    if k == "sdivw":
+        return z3.If(W[a[2]] == 0, B(0), W[a[1]] / W[a[2]]) == B(a[3])
+    if k == "smodw":
+        return z3.If(W[a[2]] == 0, B(0), z3.SRem(W[a[1]], W[a[2]])) == B(a[3])
+    if k == "expw":
+        return None  # no exact z3 encoding: ground truth comes from the planted witness only
     if k == "mix":
         return ((W[a[1]] * B(a[2])) ^ z3.LShR(W[a[1]], 7)) == B(a[3])
     if k == "st":
@@ -189,13 +200,14 @@ def encode_args(params, words, lens, data0, rng):
     return head + tail
 
 
+ALLOW_EXP = False  # C04 turns the EXP atoms on (models that stay abstract)
 CANDS = {"bytes": [0, 65, 1024], "uint256[]": [0, 1, 2]}
 
 
 # ---------------------------------------------------------------- strategies
 
 def test_st():
-    def mk(nwords, dyns, seed, reach, kind, natoms, contra, pcode):
+    def mk(nwords, dyns, seed, reach, kind, natoms, contra, pcode, allow_exp=ALLOW_EXP):
         rng = random.Random(seed)
         params = [rng.choice(WORD_TYPES) for _ in range(nwords)]
         for d in dyns:
@@ -209,7 +221,7 @@ def test_st():
             words[rng.randrange(nwords)] = 0  # zero divisors / zero moduli are witnesses too
         for _ in range(natoms):
             i, j = rng.randrange(nwords), rng.randrange(nwords)
-            form = rng.choice(["eq", "eq", "gt", "lt", "sum", "and", "mul", "div", "div", "mod", "modw", "mix", "st", "len", "word0"])
+            form = rng.choice(["eq", "eq", "gt", "lt", "sum", "and", "mul", "div", "div", "mod", "modw", "sdivw", "smodw", "expw", "mix", "st", "len", "word0"])
             wv = words[i]
             if form == "eq":
                 atoms.append(["eq", i, wv])
@@ -233,6 +245,13 @@ def test_st():
                 atoms.append(["modw", i, j, 0 if words[j] == 0 else wv % words[j]])
                 if words[j] == 0:
                     atoms += [["eq", j, 0], ["eq", i, wv]]
+            elif form in ("sdivw", "smodw") and i != j:
+                from vfw.evmref import alu
+                atoms.append([form, i, j, alu("SDIV" if form == "sdivw" else "SMOD", wv, words[j])])
+                if words[j] == 0:
+                    atoms += [["eq", j, 0]]
+            elif form == "expw" and i != j and allow_exp:
+                atoms.append(["expw", i, j, pow(wv, words[j], 1 << 256)])
             elif form == "mix":
                 kk = rng.getrandbits(256) | 1
                 atoms.append(["mix", i, kk, ((wv * kk) & M256) ^ (wv >> 7)])
@@ -253,8 +272,16 @@ def test_st():
             atoms.append(["eq", 0, words[0]])
         if not reach:
             i = rng.randrange(nwords)
-            c = contra % 4
-            if c == 0:
+            c = contra % 6
+            j2 = (i + 1) % nwords
+            if c == 4 and nwords >= 2:
+                # true under SMT-LIB semantics (x % 0 = x), false on the EVM (x % 0 = 0)
+                v = words[i] or 7
+                atoms += [["eq", j2, 0], ["eq", i, v], [rng.choice(["modw", "smodw"]), i, j2, v]]
+            elif c == 5 and nwords >= 2:
+                v = words[i] or 7
+                atoms += [["eq", j2, 0], ["eq", i, v], ["div", i, j2, M256]]
+            elif c == 0:
                 atoms += [["eq", i, words[i]], ["eq", i, (words[i] + 1) & M256]]
             elif c == 1:
                 atoms += [["lt", i, 5], ["gt", i, 10]]
@@ -268,7 +295,7 @@ def test_st():
 
     return st.builds(
         mk, st.integers(1, 4), st.lists(st.sampled_from(["bytes", "uint256[]"]), max_size=2), st.integers(0, 1 << 30), st.sampled_from([True, True, False]),
-        st.sampled_from(["panic", "panic", "failflag", "vmassert", "vmassert_cond", "vmassert_cond", "nested", "panic_other"]), st.integers(1, 4), st.integers(0, 3), st.sampled_from([0x11, 0x12, 0x32, 0x41]),
+        st.sampled_from(["panic", "panic", "failflag", "vmassert", "vmassert_cond", "vmassert_cond", "nested", "panic_other"]), st.integers(1, 4), st.integers(0, 5), st.sampled_from([0x11, 0x12, 0x32, 0x41]),
     )
 
 
@@ -343,7 +370,10 @@ def ground_truth_z3(t, store):
     for i, p in enumerate(dynp):
         s.add(z3.Or([L[i] == c for c in CANDS[p]]))
     for a in resolve_atoms(t, store):
-        s.add(atom_z3(a, W, L, D, store))
+        f = atom_z3(a, W, L, D, store)
+        if f is None:
+            return z3.unknown
+        s.add(f)
     return s.check()
 
 
